@@ -4,29 +4,13 @@ import json, os
 ROOT = os.path.dirname(os.path.abspath(__file__))
 ALL = ["C%02d" % i for i in range(1, 21)]
 
-CLAIMED = {
-    "C16": dict(
-        text="Lean 4 theorems over the model of qencode.c (tables regenerated from the source on every run): "
-             "decode∘encode = id for URL/Base64/hex for all byte strings, RFC 4648 format, URL alphabet, "
-             "decoder spellings, query-string round trip; model tied to the code by a differential "
-             "correspondence run (all strings of length 0-2, sampled length 3, random up to 8 KiB).",
-        note="trusted: Lean kernel, translator/tables.py (gcc -E + regex), the hand transcription of the loops "
-             "(validated only on explored inputs), gcc/ASan; x86-64 signed char.",
-        technique="Lean 4 proof (induction over byte lists, decide +kernel over regenerated tables) + "
-                  "K-gen tables + differential correspondence",
-        design="7/C16"),
-    "C17": dict(
-        text="Lean 4 theorems: for EVERY NUL-free input the in-place URL/Base64/hex decoders (raw-buffer models with "
-             "checked reads/writes and fuel) return ok, never touch a byte outside `s ++ [0]`, produce at most |s| bytes and "
-             "terminate the result; the query-string parser is total. Correspondence: exhaustive strings over each "
-             "format's significant alphabet + random inputs in exactly sized heap buffers under ASan/UBSan. "
-             "The INI/Apache parser half is pending (not yet modelled) and is named as such in the evidence.",
-        note="trusted: Lean kernel, hand transcription of the decoder loops (validated on explored inputs), gcc/ASan; "
-             "wall-clock termination of compiled code is observed by timeouts, the theorem is about fuel; parser half "
-             "(qconfig/qaconf) not yet covered by theorems.",
-        technique="Lean 4 proof (loop invariants on an in-place buffer, induction on fuel) + differential correspondence under ASan",
-        design="7/C17"),
-}
+import glob, importlib.util
+
+CLAIMED = {}
+for f in sorted(glob.glob(os.path.join(ROOT, "checks", "claimed_*.py"))):
+    spec = importlib.util.spec_from_file_location(os.path.basename(f)[:-3], f)
+    mod = importlib.util.module_from_spec(spec); spec.loader.exec_module(mod)
+    CLAIMED.update(mod.CLAIMED)
 
 PENDING = "check not built yet in this revision (planned: see DESIGN.md section 7); not claimed until its proof and correspondence run"
 
